@@ -25,7 +25,7 @@ from . import flow
 POLL = "std::future::Future::poll"
 NONE, OK, ERR, UNK = "none", "ok", "err", "unk"
 _WORD = re.compile(r"[A-Za-z_][A-Za-z0-9_]*")
-_NOISE_OK_IN_CHAIN = re.compile(r"Try>?::branch$|::from_residual$|^std::result::Result::<T, E>::map_err$|Into>?::into$|From<.*>>?::from$"
+_NOISE_OK_IN_CHAIN = re.compile(r"Try>?::branch$|::from_residual$|^std::result::Result::<T, E>::(map_err|inspect_err|inspect)$|Into>?::into$|From<.*>>?::from$"
                                 r"|^std::convert::(Into::into|From::from)$")
 
 
@@ -586,6 +586,73 @@ def inline_crate(crate, vocab=None):
             for b in crate.bodies.values():
                 if b.root == n:
                     b.root = roots[0]
+    adopted = _adopt_detached(crate, H, dissolved)
     crate.inline_report = {"helpers": {n: roots for n, roots in sorted(dissolved.items())},
-                           "kept": sorted(set(H) - set(dissolved)), "sites": stats.get("sites", 0)}
+                           "adopted": adopted,
+                           "kept": sorted(set(H) - set(dissolved) - set(adopted)), "sites": stats.get("sites", 0)}
     return crate.inline_report
+
+
+def _adopt_detached(crate, H, dissolved):
+    """An unknown private `async fn` whose future is never awaited where it is made (it is handed to
+    `spawn`, pushed into a set of futures, ...) is the same thing as an `async move { .. }` block written
+    at that place: the call that makes the future becomes the aggregate that makes the coroutine, and the
+    coroutine becomes a child of the body that makes it. Only when every site is in one function."""
+    adopted = {}
+    for n in sorted(H):
+        if n in dissolved:
+            continue
+        kind, hb, cor = H[n]
+        if kind != "async" or hb.name not in crate.bodies or cor.name not in crate.bodies:
+            continue
+        sites = []
+        polled = False
+        for b in crate.bodies.values():
+            if b is hb:
+                continue
+            for i, blk in enumerate(b.blocks):
+                if blk["cleanup"]:
+                    continue
+                t = blk["term"]
+                c = _callee_of(t)
+                if c == n:
+                    sites.append((b, i))
+                elif t.get("callee") == POLL and c == cor.name:
+                    polled = True
+        roots = {b.root for b, i in sites}
+        if polled or not sites or len(roots) != 1 or len({b.name for b, i in sites}) != 1:
+            continue
+        agg = [st for blk in hb.blocks if not blk["cleanup"] for st in blk["stmts"]
+               if st["sk"] == "assign" and st["rv"]["rk"] == "agg" and st["rv"].get("ak") == "closure"][0]["rv"]
+        ok = True
+        for op in agg["ops"]:
+            l = flow.operand_local(op)
+            if l is None or op["pl"]["p"] or not (1 <= l <= len(hb.d.get("args", [])) or l >= 1):
+                ok = False
+        if not ok:
+            continue
+        B = sites[0][0]
+        for b, i in sites:
+            t = b.blocks[i]["term"]
+            if t["dest"]["p"] or any(flow.operand_local(op) - 1 >= len(t["args"]) for op in agg["ops"]):
+                ok = False
+        if not ok:
+            continue
+        for b, i in sites:
+            t = b.blocks[i]["term"]
+            rv = copy.deepcopy(agg)
+            rv["ops"] = [copy.deepcopy(t["args"][flow.operand_local(op) - 1]) for op in agg["ops"]]
+            rv["adopted"] = n
+            b.blocks[i]["stmts"].append(_assign(copy.deepcopy(t["dest"]), rv, t.get("line")))
+            b.blocks[i]["term"] = _goto(t["t"], t)
+            _reset(b)
+        crate.dissolved[hb.name] = crate.bodies.pop(hb.name)
+        if cor.name in crate.children.get(hb.name, []):
+            crate.children[hb.name].remove(cor.name)
+        crate.children[B.name].append(cor.name)
+        cor.parent = B.name
+        for b in crate.bodies.values():
+            if b.root == n:
+                b.root = B.root
+        adopted[n] = B.name
+    return adopted
